@@ -690,8 +690,9 @@ func (h *fsHandler) createDirIndex(base *protocol.URI, dirPath string, mustCompr
 	if len(basePathEscaped) > 1 {
 		var parentURI protocol.URI
 		base.CopyTo(&parentURI)
-		parentURI.Update(string(base.Path()) + "/..")
-		parentPathEscaped := html.EscapeString(string(parentURI.Path()))
+		// (the path is data: a '?', '#' or '%' in it must not be read as URI syntax)
+		parentURI.Update(string(bytesconv.AppendQuotedPath(nil, base.Path())) + "/..")
+		parentPathEscaped := html.EscapeString(string(bytesconv.AppendQuotedPath(nil, parentURI.Path())))
 		fmt.Fprintf(w, `<li><a href="%s" class="dir">..</a></li>`, parentPathEscaped)
 	}
 
@@ -718,14 +719,14 @@ func (h *fsHandler) createDirIndex(base *protocol.URI, dirPath string, mustCompr
 		filenames = append(filenames, name)
 	}
 
-	var u protocol.URI
-	base.CopyTo(&u)
-	u.Update(string(u.Path()) + "/")
+	// the links: the directory's path and the entry's name, both written as the path
+	// segments they are (a name is data, not a URI reference)
+	dirQuoted := bytesconv.AppendQuotedPath(nil, stripTrailingSlashes(base.Path()))
+	dirQuoted = append(dirQuoted, '/')
 
 	sort.Strings(filenames)
 	for _, name := range filenames {
-		u.Update(name)
-		pathEscaped := html.EscapeString(string(u.Path()))
+		pathEscaped := html.EscapeString(string(bytesconv.AppendQuotedPath(dirQuoted[:len(dirQuoted):len(dirQuoted)], []byte(name))))
 		fi := fm[name]
 		auxStr := "dir"
 		className := "dir"
